@@ -176,15 +176,17 @@ def run(ctx):
         for i, mo in zip(sel, out):
             f, v, a = cases[i]
             rep = reports[i]
+            one_line = False
             if mo == "eof":
                 want = "\n"
             elif mo.startswith("lines\t"):
-                body = mo[6:].split("\\n")
+                body = mo[6:].split("\t")
                 want = "\n".join(_unesc(x) for x in body) + "\n"
+                one_line = len(body) == 1      # one LOGICAL line (a message may itself echo a newline of the vector)
             else:
                 want = mo
             ok = rep == want   # the model includes the library's message texts (Model/Messages.lean)
-            if not ok and want.count("\n") == 1 and not want.startswith("CVSS"):
+            if not ok and one_line and not want.startswith("CVSS"):
                 # the model says "one error line": only the WORDING of the message may differ (no property fixes it);
                 # what C17 demands is that the line is the library's own message for the selected version
                 iver, _ = selected(f)
@@ -252,7 +254,15 @@ def run(ctx):
 
 
 def _unesc(x):
-    return x.replace("\\t", "\t").replace("\\r", "\r").replace("\\\\", "\\")
+    out, i = [], 0
+    while i < len(x):
+        if x[i] == "\\" and i + 1 < len(x):
+            out.append({"t": "\t", "n": "\n", "r": "\r", "\\": "\\"}.get(x[i + 1], x[i + 1]))
+            i += 2
+        else:
+            out.append(x[i])
+            i += 1
+    return "".join(out)
 
 
 def replay(data):
